@@ -4,6 +4,7 @@ use serde_json::Value;
 
 pub mod c11;
 pub mod c12;
+pub mod c13;
 pub mod c18;
 pub mod statsgen;
 
@@ -18,6 +19,7 @@ pub fn run(id: &str, ctx: &Ctx) -> bool {
     match id {
         "C11" => c11::run(ctx),
         "C12" => c12::run(ctx),
+        "C13" => c13::run(ctx),
         "C18" => c18::run(ctx),
         _ => return false,
     }
@@ -28,6 +30,7 @@ pub fn replay(id: &str, ctx: &Ctx, case: &Value) -> Option<()> {
     match id {
         "C11" => c11::check_case(ctx, case),
         "C12" => c12::check_case(ctx, case),
+        "C13" => c13::check_case(ctx, case),
         "C18" => c18::check_case(ctx, case),
         _ => return None,
     }
